@@ -14,7 +14,7 @@ RULE = {"C17": "per sensor model: all 4096 ADC codes (v = code*5/4096) through A
                "inside/outside the range. Non-trivial = voltage > 0 whose power-law value lies strictly inside the range "
                "(the law, not the clamp, decides) or a sim distance inside the range; distinct = distinct (model, input)."}
 RULE["C17"] += '  Readings at or below 0 V must be the far end of the range (monotonicity); sub-LSB voltage steps; replays feed the recent input history first.'
-REQUIRED = {"C17": {"five-volt-rail-off-nominal": 100, "first-reading-of-a-new-driver-object": 60, "driver-built-through-its-older-name": 5, "near-pair": 300, "adc-code": 3 * 4096, "special-double": 60, "random-double": 3000, "in-range-law-checked": 3000,
+REQUIRED = {"C17": {"analog-input-oversampling-on": 50, "five-volt-rail-off-nominal": 100, "first-reading-of-a-new-driver-object": 60, "driver-built-through-its-older-name": 5, "near-pair": 300, "adc-code": 3 * 4096, "special-double": 60, "random-double": 3000, "in-range-law-checked": 3000,
                     "clamped-low": 100, "clamped-high": 100, "monotone-pair": 10000, "sim-roundtrip": 600,
                     "sim-outside-range": 100, "sim-fresh-helper": 50, "sim-raw-write-between": 50}}
 ASSUMPTIONS = {"C17": ["AnalogInputSim.setVoltage passes any double unchanged to AnalogInput.getVoltage (probed: yes, incl. inf and negatives)"]}
@@ -98,8 +98,20 @@ def check_fresh(acc, name, v, via_alias=False):
         gc.collect()
 
 
-def check_voltage(acc, name, v, kind, rail=None):
-    """One reading; returns the distance (or None).  rail: the roboRIO's 5 V rail during the reading, if not nominal."""
+def check_voltage(acc, name, v, kind, rail=None, oversample=None):
+    """One reading; returns the distance (or None).  rail: the roboRIO's 5 V rail during the reading, if not nominal.
+    oversample: AnalogInput oversample / average bits set on the sensor's input for this reading (a user setting)."""
+    if oversample:
+        ai = sensors()[name][0].distance
+        ai.setOversampleBits(oversample)
+        ai.setAverageBits(oversample)
+        _RECENT["oversample"] = oversample
+        try:
+            return check_voltage(acc, name, v, kind, rail=rail)
+        finally:
+            _RECENT.pop("oversample", None)
+            ai.setOversampleBits(0)
+            ai.setAverageBits(0)
     if rail is not None:
         from wpilib.simulation import RoboRioSim
         RoboRioSim.setUserVoltage5V(rail)
@@ -115,7 +127,7 @@ def _check_voltage(acc, name, v, kind, rail):
     s, sim, _ = sensors()[name]
     sim.setVoltage(v)
     hist = _RECENT.setdefault("all", [])
-    case = {"mode": "voltage", "model": name, "v_bits": struct.pack(">d", v).hex(), "history": list(hist), "rail": rail}
+    case = {"mode": "voltage", "model": name, "v_bits": struct.pack(">d", v).hex(), "history": list(hist), "rail": rail, "oversample": _RECENT.get("oversample")}
     hist.append(["v", struct.pack(">d", v).hex(), name])
     del hist[:-HIST]
     acc.evaluations += 1
@@ -254,7 +266,10 @@ def run_shard(spec):
                     # what it is, the reading must not depend on the rail
                     rail = rng.choice([4.5, 4.75, 4.9, 5.1, 0.0])
                     acc.ev("five-volt-rail-off-nominal")
-                pairs.append((v, check_voltage(acc, name, v, "random-double", rail=rail)))
+                ov = rng.choice([1, 2, 4]) if rng.random() < 0.05 else None
+                if ov:
+                    acc.ev("analog-input-oversampling-on")
+                pairs.append((v, check_voltage(acc, name, v, "random-double", rail=rail, oversample=ov)))
                 if rng.random() < 0.3 and 0 < v < 6:
                     # consecutive readings a hair apart on the same driver object (sub-LSB steps never occur in a code sweep)
                     v2 = v + rng.choice([1e-6, 1e-5, 1e-4, 5e-4, 9e-4, -1e-4, -5e-4])
@@ -320,7 +335,7 @@ def _replay_once(case, cross_model_first):
         check_fresh(acc, case["model"], v, case.get("via_alias", False))
     elif case["mode"] == "voltage":
         v = struct.unpack(">d", bytes.fromhex(case["v_bits"]))[0]
-        check_voltage(acc, case["model"], v, "replay", rail=case.get("rail"))
+        check_voltage(acc, case["model"], v, "replay", rail=case.get("rail"), oversample=case.get("oversample"))
     elif case["mode"] == "pair":
         v1 = struct.unpack(">d", bytes.fromhex(case["v1"]))[0]
         v2 = struct.unpack(">d", bytes.fromhex(case["v2"]))[0]
